@@ -6,6 +6,7 @@ SPEC = {
     "corr_name": "GqlTyping.Typing.advertised / GqlTyping.Parse.prepare vs introspection.ComputeSchemaJSON / graphql.PrepareQuery on generated schemas",
     "coq_modules": ["GqlTyping.Check14"],
     "harness_timeout": {"quick": 600, "thorough": 3000},
+    "search": {"n": 600, "timeout": 600},
     "trusted_base": [
         "Coq 8.16.1 kernel and vm_compute (no native_compute); Print Assumptions: closed under the global context",
         "hand-written models: GqlTyping/Parse.v prepare (graphql/executor.go PrepareQuery 109-204, tied to the code by the verdict correspondence on every generated query), GqlTyping/Typing.v advertised + scalar table (tied by the comparison with introspection.ComputeSchemaJSON), reference evaluator eval/expand (NOT compared with the executor: C01's subject; tied to the code only through the conformance oracle)",
